@@ -47,7 +47,7 @@ var boundedByProp = map[string][]boundedSpec{
 
 var c06Spec = boundedSpec{ID: "mul-sqr-div-exec", Name: "executed contracts of dec.mul, dec.sqr, dec.div against math/big", File: "c06_exec_test.go.txt", Run: "TestVerifBoundedC06$", Marker: "C06EXEC",
 	Bounds: "operand lengths 1..260 words (30 sizes around every threshold; division with 1..230-word divisors so that divBasic and divRecursive both run), six word patterns (all nines, zeros under a top word, alternating, edge words, mixed, uniform), threshold tunings {default, (2,1,2), (3,2,4), (4,3,7), (8,4,8), (40,20,40)} for sizes <= 130, remainders {0, v-1, small, random}, stale and aliased destinations",
-	Stands: []string{"dec.divLarge (assumed value clause; reached through the verified dec.div)", "redundant cross-check of the verified multiplication and squaring stack (dec.mul, dec.sqr, decKaratsuba, decKaratsubaSqr, decBasicMul, decBasicSqr)"},
+	Stands: []string{"dec.divBasic, dec.divRecursive (assumed value clauses; reached through the verified dec.div and dec.divLarge)", "redundant cross-check of the verified multiplication and squaring stack (dec.mul, dec.sqr, decKaratsuba, decKaratsubaSqr, decBasicMul, decBasicSqr)"},
 	Env: map[string][2]string{"VERIF_C06_REPS": {"3", "40"}}, Timeout: "1500s"}
 
 var c05Spec = boundedSpec{ID: "sqrt-rounding", Name: "executed rounding clause of Sqrt against an exact integer oracle", File: "c05_sqrt_test.go.txt", Run: "TestVerifBoundedC05$", Marker: "C05SQRT",
